@@ -118,18 +118,25 @@ Qed.
 
 (* ---------------------------------------------------------------- examples *)
 
-(* a rank 3 dataset, first dimension unlimited: datatype message in front of the dataspace message, chunked layout
-   message and a compact attribute behind it; 48 bytes in front of the header, 10 behind it *)
-Definition ex_before : list hmsg := [ {| hm_type := 3; hm_data := [17; 16; 8; 0; 4; 0; 0; 0; 0; 0; 32; 0] |} ].
+(* a rank 3 dataset, first dimension unlimited, as the library wrote it (superblock version 2, int32 elements, chunks
+   2x3x2, one compact int32 attribute "a"): the messages below are those of the header image ex_go_image, which is
+   the output of the c13unit harness for CreateDataset + WriteAttribute.  The header is the END of the file (suf = []):
+   nothing has been allocated after it yet. *)
+Definition ex_before : list hmsg := [ {| hm_type := 3; hm_data := unhex "100800000400000000200000" |} ].
 Definition ex_after : list hmsg :=
-  [ {| hm_type := 8; hm_data := [3; 2; 4] ++ le 8 0 ++ le 4 2 ++ le 4 3 ++ le 4 2 ++ le 4 4 |};
-    {| hm_type := 12; hm_data := [1; 0; 2; 0; 8; 0; 8; 0; 97; 0] ++ zeros 20 |} ].
+  [ {| hm_type := 8; hm_data := unhex "0302030000000000000000020000000300000002000000" |};
+    {| hm_type := 12; hm_data := unhex "030002000c0010000061001008000004000000002000000101000000000000010000000000000007000000" |} ].
 Definition ex_dims : list N := [4; 6; 2].
 Definition ex_maxd : list N := [UNLIMITED; 6; 10].
 Definition ex_pre : bytes := zeros 48.
-Definition ex_suf : bytes := zeros 10.
+Definition ex_suf : bytes := [].
+Definition ex_go_image : bytes := unhex
+  "4f484452020096030c0000100800000400000000200000013800000103010000000000040000000000000006000000000000000200000000000000ffffffffffffffff06000000000000000a000000000000000817000003020300000000000000000200000003000000020000000c2b0000030002000c0010000061001008000004000000002000000101000000000000010000000000000007000000".
 Definition ex_file : bytes := ex_pre ++ enc_ohdr_v2 (hdr_of 0 ex_before ex_dims ex_maxd ex_after) ++ ex_suf.
 Definition ex_handle : rhandle := new_handle ex_dims ex_maxd [2; 3; 2] 4.
+
+Example ex_image_is_go's : enc_ohdr_v2 (hdr_of 0 ex_before ex_dims ex_maxd ex_after) = ex_go_image.
+Proof. vm_compute. reflexivity. Qed.
 
 Example ex_stored : stored ex_file 48 0 ex_before ex_after (rh_dims ex_handle) (rh_maxdims ex_handle) ex_pre ex_suf.
 Proof. constructor; try reflexivity; vm_compute; congruence. Qed.
